@@ -1,12 +1,13 @@
 """Line coverage of /repo/dataiter under the symbolic run (sys.monitoring, near-zero cost:
 each location reports once per process and is then disabled)."""
+import os
 import sys
 
 _seen = set()
 _new = set()
 _on = False
 TOOL = 3
-ROOT = "/repo/dataiter/"
+ROOT = os.environ.get("VF_REPO", "/repo") + "/dataiter/"
 
 def _line(code, line):
     fn = code.co_filename
